@@ -152,8 +152,16 @@ def gen_world(seed, classes=ALL_CLASSES, want_constraints=0.3, node_p=0.25, tag=
                     for r_ in g["routes"]:
                         onroute.update(zip(r_[:-1], r_[1:]))
                     # an edge out of the last node that does not continue any route through the constraint's last edge
-                    alt = [y for y in alt if not any(tuple(c[-1]) in list(zip(r_[:-1], r_[1:])) and (last, y) in list(zip(r_[:-1], r_[1:])) for r_ in g["routes"])]
-                    if alt and (dag or True):
+                    cont = set()
+                    for r_ in g["routes"]:
+                        er = list(zip(r_[:-1], r_[1:]))
+                        for a_, b_ in zip(er[:-1], er[1:]):
+                            if list(a_) == c[-1]:
+                                cont.add(b_[1])
+                    # an edge out of the last node that no generating route takes right after the constraint's last edge
+                    alt2 = [y for y in alt if y not in cont]
+                    alt = alt2 or (alt if rng.random() < 0.3 else [])
+                    if alt:
                         newc.append(c + [[last, rng.choice(alt)]])
                         crossed = True
                     else:
@@ -165,6 +173,9 @@ def gen_world(seed, classes=ALL_CLASSES, want_constraints=0.3, node_p=0.25, tag=
                     shortest = min(len(c) for c in cons)
                     # a fraction that the generating route still reaches for every constraint
                     cov = 0.5 if shortest <= 3 else rng.choice([0.5, 0.75])
+            if g.get("_constraint_has_unused_edge") and not crossed:
+                # the unused (zero-flow) edge need not be covered
+                cov = 0.5 if len(cons[0]) <= 3 else 0.75
             if cov != 1:
                 args[cons_key + "_coverage"] = cov
             elif dag and not node_mode and rng.random() < length_cov_p:
